@@ -21,13 +21,24 @@ var (
 	forkAll  map[string]int64
 )
 
+// The fork names are listed statically: creating a throw-away "local" configuration to ask
+// for them would bind the executor types (RegExecInit runs once per process) to a non-para
+// configuration, and the para-chain rows need the FIRST configuration of the process to be the
+// para one. getCfg verifies after creation that no registered fork was missed.
+var staticForks = []string{"ForkAccountBlacklist", "ForkBase58AddressCheck", "ForkBlockCheck", "ForkBlockHash",
+	"ForkCacheDriver", "ForkChainParamV1", "ForkChainParamV2", "ForkCheckBlockTime", "ForkCheckEthTxSort", "ForkCheckTxDup",
+	"ForkEnableParaRegExec", "ForkEthAddressFormat", "ForkExecKey", "ForkExecRollback", "ForkFormatAddressKey",
+	"ForkLocalDBAccess", "ForkMaxTxFeeV1", "ForkMinerTime", "ForkMultiSignAddress", "ForkParaFee", "ForkProxyExec",
+	"ForkResetTx0", "ForkRootHash", "ForkStateDBSet", "ForkTicketFundAddrV1", "ForkTransferExec", "ForkTxChainIDStrict",
+	"ForkTxGroup", "ForkTxGroupPara", "ForkTxHeight", "ForkWithdraw",
+	"coins.Enable", "coins.ForkFriendExecer", "manage.Enable", "manage.ForkManageAutonomyEnable", "manage.ForkManageExec",
+	"none.ForkUseTimeDelay"}
+
 func allForks() map[string]int64 {
 	forkOnce.Do(func() {
-		c := types.NewChain33Config(types.GetDefaultCfgstring())
-		m, _ := c.GetForks()
 		forkAll = map[string]int64{}
-		for k, v := range m {
-			forkAll[k] = v
+		for _, k := range staticForks {
+			forkAll[k] = 0
 		}
 	})
 	return forkAll
@@ -135,6 +146,22 @@ func getCfg(p cfgParams) *types.Chain33Config {
 		return c
 	}
 	c := types.NewChain33Config(mkToml(p))
+	// safety net: a fork registered by the code but unknown to the static list keeps its
+	// test-net default height; give it the "local" value 0 so that the node behaves like the
+	// unit-test configuration everywhere except at the two heights under test
+	if m, err := c.GetForks(); err == nil {
+		known := allForks()
+		for k := range m {
+			if _, ok := known[k]; ok || strings.HasPrefix(k, "evm.") {
+				continue
+			}
+			if i := strings.Index(k, "."); i >= 0 {
+				c.SetDappFork(k[:i], k[i+1:], 0)
+			} else {
+				c.SetFork(k, 0)
+			}
+		}
+	}
 	cfgCache[p.key()] = c
 	return c
 }
